@@ -54,6 +54,14 @@ func canon(s *server.VerifSnap) string {
 		h := sha256.Sum256(a.Encode())
 		sid, ok := s.ShortIDs[s.Equipment[id].PublicKey]
 		fmt.Fprintf(&b, "dev %d %x idx=%v/%d impact=%v\n", id, h[:6], ok, sid, s.Impact[id] != nil)
+		if im := s.Impact[id]; im != nil {
+			// the values are random in the test build, the positions are not
+			for i := range im {
+				if im[i] != 0 {
+					fmt.Fprintf(&b, " impact-at %d\n", i)
+				}
+			}
+		}
 		if r := s.Reports[id]; r != nil {
 			for i := range r {
 				if r[i].PowerOutput != 0 {
@@ -72,7 +80,13 @@ func canon(s *server.VerifSnap) string {
 			for _, p := range d.PowerOutputs {
 				fmt.Fprintf(h, "%d,", p)
 			}
-			ds = append(ds, fmt.Sprintf("%x:%x", d.PublicKey[:4], h.Sum(nil)[:6]))
+			var at []int
+			for i, r := range d.ImpactRates {
+				if r != 0 {
+					at = append(at, i)
+				}
+			}
+			ds = append(ds, fmt.Sprintf("%x:%x:impact-at%v", d.PublicKey[:4], h.Sum(nil)[:6], at))
 		}
 		sort.Strings(ds)
 		fmt.Fprintf(&b, "week %d label %d %v\n", k, w.TimeslotOffset, ds)
